@@ -61,6 +61,25 @@ def build_ops():
             # the integrators return the trajectory [initial_value, state 1, ...]: position 0 IS the initial-value argument
             kw.setdefault('hands_back', 0 if 'splitting' in name else 1)
         ops.append(Op(name, arity, en, run, **kw))
+    # ---- constructors, sized like a live object: new objects every time, with their defining values (hidden module state)
+    import scikit_tt.tensor_train as ttm
+
+    def dense_of(rows, cols, fill):
+        # layout of vt.core.dense_cores: (1, m_1..m_d, n_1..n_d, 1)
+        d_ = len(rows)
+        if fill == 'eye':
+            out = np.eye(int(np.prod(rows))).reshape(list(rows) + list(rows))
+            return out.reshape([1] + list(rows) + list(rows) + [1])
+        val = {'ones': 1.0, 'zeros': 0.0}[fill]
+        return np.full([1] + list(rows) + list(cols) + [1], val)
+    ctor_en = lambda s, i: b1(O(s, i)) and O(s, i).order <= 4
+    add('tt.eye(like)', 1, ctor_en, lambda s, a: ttm.eye(list(a.row_dims)), always=True, oracle=lambda s, a: dense_of(list(a.row_dims), None, 'eye'))
+    add('tt.ones(like)', 1, ctor_en, lambda s, a: ttm.ones(list(a.row_dims), list(a.col_dims)), always=True,
+        oracle=lambda s, a: dense_of(list(a.row_dims), list(a.col_dims), 'ones'))
+    add('tt.zeros(like)', 1, ctor_en, lambda s, a: ttm.zeros(list(a.row_dims), list(a.col_dims)), always=True,
+        oracle=lambda s, a: dense_of(list(a.row_dims), list(a.col_dims), 'zeros'))
+    add('tt.unit(like)', 1, ctor_en, lambda s, a: ttm.unit(list(a.row_dims), [0] * a.order), always=True)
+    add('tt.uniform(like)', 1, ctor_en, lambda s, a: ttm.uniform(list(a.row_dims), ranks=2), always=True)
     # ---- binary value operations
     same = lambda s, i, j: b1(O(s, i)) and b1(O(s, j)) and list(O(s, i).row_dims) == list(O(s, j).row_dims) and \
         list(O(s, i).col_dims) == list(O(s, j).col_dims) and O(s, i).order == O(s, j).order
